@@ -54,8 +54,34 @@ theorem popFaster_cons (o : Op) (prev : Option Tok) (out : List Expr) (n : OpNod
         | .ok out' => popFaster o prev out' ops
       else .ok (out, n :: ops) := by
   rw [popFaster]
-  simp only [flag_ternary, Bool.true_and, pops]
-  rfl
+  by_cases h1 : has n.op.ty T.pairStart = true
+  · simp [h1]
+  · simp only [h1, Bool.false_eq_true, if_false, popDecision, flag_ternary, pops]
+    by_cases hc : has o.ty T.colon = true
+    · by_cases hq : has o.ty T.questionMark = true
+      · -- `:` is not `?`
+        exfalso
+        have : ∀ x : Op, has x.ty T.colon = true → has x.ty T.questionMark = false := forall_op (by decide +kernel)
+        rw [this o hc] at hq; simp at hq
+      · simp [hc, hq]
+        rfl
+    · by_cases hnq : has n.op.ty T.questionMark = true
+      · by_cases hq : (has o.ty T.questionMark && n.op.prec == o.prec) = true
+        · simp [hc, hnq, hq]
+        · simp [hc, hnq, hq]
+      · by_cases hq : (has o.ty T.questionMark && n.op.prec == o.prec) = true
+        · have hq' := hq
+          simp only [Bool.and_eq_true, beq_iff_eq] at hq'
+          simp [hc, hnq, hq, hq'.1, hq'.2]
+        · have : (o.prec == n.op.prec && has o.ty T.questionMark) = false := by
+            simp only [Bool.and_eq_true, beq_iff_eq, not_and] at hq
+            cases h : has o.ty T.questionMark
+            · simp
+            · have := hq h; simp [Ne.symm this]
+          have hq2 : ¬ (has o.ty T.questionMark = true ∧ n.op.prec = o.prec) := by
+            simpa using hq
+          simp [hc, hnq, this, hq2]
+          rfl
 
 /-- result operand of applying the operator of frame `f` (not `opn`, not `quest`) to the top operand -/
 def Frame.result : Frame → Option Expr → Option Expr
